@@ -1278,7 +1278,8 @@ func (db *DB) Repair(of Object) (err error) {
 		}
 	}
 
-	return nil
+	// the repaired index is committed as any other modification
+	return db.commit(of)
 }
 
 // Close closes gently the DB by flushing any pending async writes
